@@ -330,19 +330,24 @@ let rec sx_expr (e : sexpr) : str =
   | XAtom (LfBool b) -> if b then "b:true" else "b:false"
   | XAtom (LfStr c) -> "s:" ^ hex_of_text c
   | XAtom (LfName n) -> "n:" ^ lname n
-  | XAtom (LfVar n) -> "v:" ^ lname n
+  | XVar (n, ss) -> sx_var n ss
   | XBin (o, l, r) -> "(" ^ binop_name o ^ " " ^ sx_expr l ^ " " ^ sx_expr r ^ ")"
   | XUn (o, x) -> "(" ^ unop_name o ^ " " ^ sx_expr x ^ ")"
   | XCall (f, ps) -> "(call " ^ lname f ^ sx_params ps ^ ")"
+and sx_var n ss =
+  if ss = [] then "v:" ^ lname n
+  else "(var " ^ lname n ^ S.concat "" (List.map (fun s -> match s with
+      | SField f -> " (field " ^ lname f ^ ")"
+      | SIndex es -> " (index" ^ S.concat "" (List.map (fun e -> " " ^ sx_expr e) es) ^ ")") ss) ^ ")"
 and sx_params ps = S.concat "" (List.map (fun p -> " " ^ sx_param p) ps)
 and sx_param p =
   match p with
   | PPos e -> "(pos " ^ sx_expr e ^ ")"
   | PNamed (n, e) -> "(named " ^ lname n ^ " " ^ sx_expr e ^ ")"
-  | POut (neg, n, v) -> "(out " ^ (if neg then "1" else "0") ^ " " ^ lname n ^ " " ^ lname v ^ ")"
+  | POut (neg, n, v, vs) -> "(out " ^ (if neg then "1" else "0") ^ " " ^ lname n ^ " " ^ sx_var v vs ^ ")"
 let rec sx_stmt (s : stmt) : str =
   match s with
-  | TAssign (v, e) -> "(assign " ^ lname v ^ " " ^ sx_expr e ^ ")"
+  | TAssign (v, vs, e) -> "(assign " ^ sx_var v vs ^ " " ^ sx_expr e ^ ")"
   | TCall (f, ps) -> "(fbcall " ^ lname f ^ sx_params ps ^ ")"
   | TIf (c, b, eis, els) ->
       "(if " ^ sx_expr c ^ " " ^ sx_list b ^ " (" ^ S.concat " " (List.map (fun (c, b) -> "(elsif " ^ sx_expr c ^ " " ^ sx_list b ^ ")") eis) ^ ") " ^ sx_list els ^ ")"
